@@ -356,6 +356,46 @@ def pipeline (spec : List Opt) (ini : List (Str × CfgVal)) (dodo : List (Str ×
   | .error e => .error e
   | .ok st => withDodo dodo (parse false st env argv).2
 
+/-! ## options whose `choices` are known late (`backend`: the choices depend on the `[BACKEND]` plugins) -/
+
+def blankChoices (late : List Str) (spec : List Opt) : List Opt :=
+  spec.map fun o => if o.name ∈ late then { o with choices := [] } else o
+
+def restoreChoices (late : List Str) (spec st : List Opt) : List Opt :=
+  st.map fun o => if o.name ∈ late then { o with choices := ((findOpt spec o.name).map (·.choices)).getD [] } else o
+
+/-- `opt.validate_choice(value)` for the late options, in table order; `pinned`: no validation, an unknown name ends
+    as `TypeError: 'NoneType' object is not callable` when the backend class is looked up -/
+def checkLate (pinned : Bool) (late : List Str) (value : Opt → Option Val) : List Opt → Except Err Unit
+  | [] => .ok ()
+  | o :: rest =>
+    if o.name ∈ late then
+      match value o with
+      | none => checkLate pinned late value rest
+      | some v => match checkChoice o v with
+        | .error e => .error (if pinned then .crash else e)
+        | .ok _ => checkLate pinned late value rest
+    else checkLate pinned late value rest
+
+/-- `DoitCmdBase`: `get_backends()` touches `cmdparser` (→ `overwrite_defaults`, the choices of `backend` still
+    empty), attaches the choices and validates the configured default (since the fix of F-C16e); after `parse` and
+    `update_defaults(DOIT_CONFIG)` `execute` validates the resolved value.  `pinned := true`: neither validation
+    (the pre-fix behaviour), an unknown resolved name crashes. -/
+def pipelineLate (pinned : Bool) (spec : List Opt) (late : List Str) (ini : List (Str × CfgVal))
+    (dodo : List (Str × Val)) (env : Str → Option Str) (argv : List Str) : Except Err (Params × List Str) :=
+  match overwriteDefaults ini (blankChoices late spec) with
+  | .error e => .error e
+  | .ok st0 =>
+    match (if pinned then .ok () else checkLate false late (fun o => some o.default) (restoreChoices late spec st0)) with
+    | .error e => .error e
+    | .ok _ =>
+      match withDodo dodo (parse false (restoreChoices late spec st0) env argv).2 with
+      | .error e => .error e
+      | .ok (p, pos) =>
+        match checkLate pinned late (fun o => p.vals o.name) (restoreChoices late spec st0) with
+        | .error e => .error e
+        | .ok _ => .ok (p, pos)
+
 /-! ## loader options written before the sub-command name (`doit -f x.py -k list …`) -/
 
 /-- one (option, text) pair of `loader_opt_parser.parse_only(all_args)`: the dict starts empty, holds only the
